@@ -109,7 +109,8 @@ def run(c):
         if os.path.lexists(lnk):
             os.remove(lnk)
     c.samples = samples
-    need = ["matched", "big", "withLast", "poolMatched", "multiFill", "partial", "mixedAges", "kmatch", "kfull", "ranged"]
+    need = ["matched", "big", "withLast", "poolMatched", "multiFill", "partial", "mixedAges", "kmatch", "kfull", "ranged",
+            "kfullIdsDistinct", "kfullSecondPair", "kfullPoolIdNePairId", "foreignOrderAttempts"]
     if any(stats.get(k, 0) == 0 for k in need):
         raise vlib.NoVerdict("vacuous run: %s" % stats)
     return c.finish("model_checking", dict(
